@@ -13,6 +13,17 @@ CLAIMS = {
                 'bytes; every reader branch consumes exactly field.size bytes.',
         not_decided='that the persisted set is sufficient for bit-wise continuation of every integrator; padding bytes; the continuation itself (runtime)',
         design_ref='3/C05'),
+    'C12': dict(
+        module='c12', level='other',
+        technique='sibling/slice isomorphism over the clang AST: kind projections of transformation variants, xyz component renaming, MERCURIUS/TRACE twin comparison',
+        decided='for each coordinate map of transformations.c the pos / posvel / posvelacc / acc variants are the same statement tree '
+                'after projecting onto one kind and neutralising kind names (Jacobi and barycentric: all kinds equal; WHDS and democratic '
+                'heliocentric: equal per kind, or delegation to the _pos variant); every x/y/z statement triple of the transformations, the '
+                'hybrid heliocentric shifts and move_to_hel/move_to_com/com is one formula under an axis permutation; the TRACE copies of '
+                'inertial_to_dh, dh_to_inertial, interaction, jump and com steps equal their MERCURIUS twins statement by statement '
+                '(admitted differences frozen).',
+        not_decided='forward o inverse = identity for all N (loop induction), rounding error of the round trip, slot-0 = (M, COM) beyond the component isomorphism',
+        design_ref='3/C12'),
     'C18': dict(
         module='c18', level='other',
         technique='ABI layout comparison: clang record layouts vs a ctypes layout calculator over the _fields_ AST; enum/dictionary and prototype/CFUNCTYPE table agreement',
